@@ -47,6 +47,14 @@ CHECKS = {
             "forests up to 12 blocks; TLC recomputes each presentation with the published rules (Pass A) and with the code-shaped rules (Pass B) and compares vote, lock and "
             "commit at every step.",
             "QC labels equal the certified block's view; a rule condition that mentions an unstored block does not hold.", "DESIGN.md section 6, C04"),
+    "C08": ("model_checking",
+            "TLA+ Pacemaker module (collector as coded vs the per-view count of correctly signed timeouts) model-checked by TLC over all interleavings; TLC replay of timeout traffic fed to one real replica whose emitted certificates are verified by the other real replicas",
+            "TLC exhausts all interleavings of timeout messages over three views (good/bad signatures, duplicates, n=4) and shows the bag-based collector fires exactly when "
+            "the per-view count reaches the quorum (negative control: cross-view counting refuted). Seeded timeout traffic (future/past views, duplicates, wrong-key, "
+            "wrong-view, absent and replayed signatures, bad message signatures, own timer expiries) is fed to a real Synchronizer placed at/behind/ahead of the timed-out "
+            "view, n in {4,7}, both timeout rules, three schemes; TLC checks at every message that a certificate leaves the replica exactly at the quorum step, from those "
+            "messages only, verifies at all other replicas (TC and aggregate QC), and moves a replica in that view on (Pass A); the real bag equals the model's (Pass B).",
+            "Crafted timeouts carry only the genesis QC as sync info.", "DESIGN.md section 6, C08"),
     "C11": ("model_checking",
             "TLA+ SigCache module (LRU state machine, key derivation) model-checked by TLC for transparency; TLC state-machine replay of operation sequences run on a cached and an uncached real Authority",
             "TLC exhausts the cache model over a small request universe and shows cached verdict = uncached verdict in every reachable state (negative control: the "
